@@ -180,8 +180,38 @@ func runC09(c *Ctx) {
 	hdr := sc.S.Header
 	nPush, nPop := 0, 0
 	r4done := map[ssa.Value]bool{}
+	// the joint assignments of (flag, stack): on back edges and, when the two variables are merged earlier (e.g. in the
+	// result of an inlined helper), on the edges into those merge blocks
+	// the assignments of (flag, stack) seen on the back edges; where the stack operand is itself a merge (e.g. the
+	// result variable of an inlined helper) the merge is taken apart edge by edge, together with the flag's merge in
+	// the same block
+	var sites []model.Site
+	var expand func(f, s ssa.Value, pred, blk *ssa.BasicBlock, depth int)
+	expand = func(f, s ssa.Value, pred, blk *ssa.BasicBlock, depth int) {
+		if sp, ok := s.(*ssa.Phi); ok && sp != lv.Stack && depth < 6 && sp.Block() != hdr {
+			for i, e := range sp.Edges {
+				fi := f
+				if fp, ok := f.(*ssa.Phi); ok && fp.Block() == sp.Block() {
+					fi = fp.Edges[i]
+				}
+				expand(fi, e, sp.Block().Preds[i], sp.Block(), depth+1)
+			}
+			return
+		}
+		sites = append(sites, model.Site{Pred: pred, Block: blk, V1: f, V2: s})
+	}
 	for i, pred := range hdr.Preds {
-		f, s := lv.Pending.Edges[i], lv.Stack.Edges[i]
+		expand(lv.Pending.Edges[i], lv.Stack.Edges[i], pred, hdr, 0)
+	}
+	seenSite := map[string]bool{}
+	for _, site := range sites {
+		f, s := site.V1, site.V2
+		pred := site.Pred
+		sk := fmt.Sprintf("%d>%d|%s|%s", pred.Index, site.Block.Index, f.Name(), s.Name())
+		if seenSite[sk] {
+			continue
+		}
+		seenSite[sk] = true
 		arm := sc.S.ArmOf(pred)
 		pos := c.P.Pos(lastPos(pred))
 		if !hdr.Dominates(pred) {
@@ -192,12 +222,7 @@ func runC09(c *Ctx) {
 			R.Check(okE, "C09.R1", "entry", "(*Policy).sanitize: initial (pending flag, stack)", pos, "(false, nil)", "loop state not initialised to (false, empty)")
 			continue
 		}
-		var k int
-		for j, s2 := range pred.Succs {
-			if s2 == hdr {
-				k = j
-			}
-		}
+		k := site.SuccIndex()
 		key := fmt.Sprintf("backedge:%s:%s:%s", arm, siteVal(lv.Stack, s), blockRole(sc, pred))
 		cons := fmt.Sprintf("(*Policy).sanitize arm %s back edge (%s): (flag, stack) := (%s, %s)", arm, blockRole(sc, pred), A.Sym.Of(f), siteVal(lv.Stack, s))
 		if s == ssa.Value(lv.Stack) {
